@@ -42,6 +42,11 @@ def _formula(rng):
         rhs += " + " + gen_dm.rand_group(rng)
     elif r < 0.43:
         rhs += " + " + gen_dm.rand_group_pair(rng)
+    elif r < 0.5:
+        # a grouping factor that is a CALL returning numbers / booleans: it is a factor (frozen levels) at training, it
+        # is the same factor at prediction
+        rhs += " + " + rng.choice(["(1 | g:I(k > 2))", "(x | I(z > 6))", "(1 | I(k > 2))", "(0 + x | h:I(z > 6))",
+                                   "(1 | I(z > 6):g)"])
     return "y ~ " + rhs
 
 
